@@ -22,6 +22,8 @@ CONTRACTS = [
     ("deal.has('io')", 'CCall (CAttr "deal" "has") true false ["io"]', 'has:io'), ("deal.has('network')", 'CCall (CAttr "deal" "has") true false ["network"]', 'has:network'),
     ('deal.raises(ValueError)', 'CCall (CAttr "deal" "raises") false false []', 'unsupported'),
     ('deal.typo', 'CAttr "deal" "typo"', 'unsupported:AttributeError'), ('notdeal.pure', 'CAttr "notdeal" "pure"', 'unsupported:NameError'),
+    ("deal.has('stdout', message='m')", 'CCall (CAttr "deal" "has") true true ["stdout"]', 'unsupported'),
+    ("deal.safe(message='m')", 'CCall (CAttr "deal" "safe") true true []', 'unsupported'),
     ('deal.introspection.unwrap', 'CNested', 'crash'), ("deal.has(markers='io')", 'CCall (CAttr "deal" "has") true true []', 'unsupported:TypeError?'),
 ]
 
